@@ -33,7 +33,9 @@ def limit_cases(seed, tier):
     r = grammar.Rng(seed)
     cases = []
     cid = 0
-    limits = [(16, 32), (50, 100), (200, 400), (0, 0)] if tier == 'quick' else [(16, 32), (20, 33), (50, 100), (200, 400), (1000, 2000), (0, 0)]
+    # (soft, hard); the hard limit holds whatever the soft one is - also when the soft limit (default 9000) is left above a lowered
+    # hard limit, or equals it: htp_config_set_field_limits() does not order them
+    limits = [(16, 32), (50, 100), (200, 400), (0, 0), (9000, 64), (64, 64)] if tier == 'quick' else [(16, 32), (20, 33), (50, 100), (200, 400), (1000, 2000), (0, 0), (9000, 64), (100, 50), (64, 64), (18000, 300)]
     for soft, hard in limits:
         H = hard or 18000
         for where in ('req_line', 'req_header', 'req_trailer', 'res_line', 'res_header', 'res_chunklen', 'req_chunklen'):
